@@ -30,6 +30,8 @@ type Dest struct {
 	Amount uint64 `json:"amount"` // as typed on the command line (before -f)
 	// AmountText, when set, is typed verbatim; it denotes an amount of at least 2^64 satoshi
 	AmountText string `json:"amount_text,omitempty"`
+	// Form selects a number format for this amount ("" = the case's amount_format)
+	Form string `json:"form,omitempty"`
 }
 
 // Case is one member: wallet configuration x balance folder x request.
@@ -69,6 +71,8 @@ type Case struct {
 	RawFlags  bool     `json:"raw_flags"`  // give -seq/-locktime/-txver on the -raw command line too
 	RawBinary bool     `json:"raw_binary"` // offer the raw transaction as a binary file instead of hex
 	Chain     bool     `json:"chain"`      // afterwards spend the updated balance folder completely
+
+	Batch *BatchLayout `json:"batch_layout,omitempty"` // text layout of the -batch file (nil = one comment line, LF, final newline)
 
 	MS *MSCase `json:"multisig,omitempty"` // family "-raw on multisig P2SH inputs" (then only type/atype/testnet/rfc6979 above apply)
 }
@@ -381,15 +385,11 @@ func ownedByWallet(c *Case, l *listedOut) bool {
 // sendArgs renders the command line of the -send/-batch run; extra files (batch) are returned.
 func sendArgs(id *identity, c *Case) (args []string, files map[string][]byte) {
 	files = map[string][]byte{}
-	var pairs []string
+	var pairs [][2]string
 	for _, d := range c.Dests {
-		amt := fmtAmount(d.Amount, c.AmtFmt)
-		if d.AmountText != "" {
-			amt = d.AmountText
-		}
-		pairs = append(pairs, destAddr(id, d.Kind, d.Key)+"="+amt)
+		pairs = append(pairs, [2]string{destAddr(id, d.Kind, d.Key), d.typed(c)})
 	}
-	var viaSend, viaBatch []string
+	var viaSend, viaBatch [][2]string
 	switch c.Via {
 	case "batch":
 		viaBatch = pairs
@@ -399,10 +399,14 @@ func sendArgs(id *identity, c *Case) (args []string, files map[string][]byte) {
 		viaSend = pairs
 	}
 	if len(viaSend) > 0 {
-		args = append(args, "-send", strings.Join(viaSend, ","))
+		var l []string
+		for _, p := range viaSend {
+			l = append(l, p[0]+"="+p[1])
+		}
+		args = append(args, "-send", strings.Join(l, ","))
 	}
 	if len(viaBatch) > 0 {
-		files["batch.txt"] = []byte("# c13 batch file, address=amount per line\n" + strings.Join(viaBatch, "\n") + "\n")
+		files["batch.txt"] = []byte(c.Batch.text(viaBatch))
 		args = append(args, "-batch", "batch.txt")
 	}
 	if c.Fee != "" && c.FeeVia != "cfg" {
